@@ -60,6 +60,21 @@ CHECKS["C13"] = {
     "note": TRUST + " resolva's internal lru_cache(128) cannot be resized; its eviction is reached by floods of > 128 distinct strings (probe counted).",
 }
 
+CHECKS["C14"] = {
+    "technique": "deterministic simulation: seeded histories of public operations and mutation attempts on Sids held by a client across an epoch (shared cached instances, cache eviction, restarts), snapshot invariants after every step",
+    "category": "exploration",
+    "text": "A pool of up to 24 Sids (typed, untyped, search, same string with different forced types, built from string / uri / fields / query / path) is held by the client while seeded sequences of every public operation (copy, parent, get_as, get_with, '/', match, path, exists/children/siblings/get_last, rebuild from uri/str/Sid, eval(repr)) and mutation attempts on every returned container (fields: set / clear / update / pop / setdefault; children / siblings lists: clear / append) run on them and on Sids sharing their string, with cache floods and capacities down to 1. After every step every held Sid's (string, type, fields, uri, hash, str, repr, len, bool) must equal its snapshot at creation, a re-built same-uri Sid must equal the first one (also across restarts), and eq<=>uri-eq, eq=>hash-eq, Sid==str<=>str==str, '<' and sorted() by string, set/dict sizes = distinct uris hold on all pairs.",
+    "ref": "DESIGN.md 5.2",
+    "note": TRUST,
+}
+CHECKS["C05"] = {
+    "technique": "deterministic simulation: seeded histories of path()/Sid(path=) calls in random order over both configurations with cache-capacity knob, restarts and a fresh twin process as purity oracle",
+    "category": "exploration",
+    "text": "Concrete Sids of every type (mapped project/type/state values, free-form values containing '_', '-', '.', '+', node / no-node cache files, untyped strings, path-less types) are taken through sid.path(c) (positional, keyword, default spelling) and Sid(path=p, config=c) in seeded random order, with either configuration touched first, the other configuration asked about the same path in between, capacities down to 1 and restarts. Checked at every position: no exception; None for untyped / path-less; round trip equals the Sid (uri and fields); the value equals every earlier observation in the run, the observation of a fresh twin process, and the template-formatted path of the reference model; no two Sids share a path within a run; local and server paths differ only by the configured root.",
+    "ref": "DESIGN.md 5.11",
+    "note": TRUST + " The input space (all Sids) is sampled, not enumerated.",
+}
+
 NOT_APPLICABLE = {
     "C01": "pure function of one string and the static template table; no history, storage, entropy or fault in it (cache effects on it are C13/C14's subject); deciding it is input generation, not simulation",
     "C02": "pure function of one Sid (constructors are deterministic re-encodings); nothing for a schedule or fault to act on",
